@@ -220,8 +220,8 @@ func c06Gen(t *rapid.T) c06Case {
 
 func TestC06Frames(t *testing.T) {
 	kit.Run(t, kit.Spec[c06Case]{
-		Prop: "C06",
-		Rule: "sequences of 1..12 frames fed to ONE processor instance (tcp flags / tcp syn / icmp(udp) / arp; Ethernet and raw-IP mode): each frame is a well-formed frame of a drawn kind (own protocol half of the time; else tcp/udp/icmp/arp/ipv6/vlan/IP-in-IP 1..3 levels/other protocol, with IP+TCP options; or a consistently built datagram that ends inside/before its transport header or is a non-first fragment, plain or nested in IP-in-IP) with 0..3 structural mutations applied at a drawn level of the IP-in-IP chain (truncate anywhere, IHL, total length, protocol, data offset, fragment bits, version, trailing garbage, bit flips, ARP sizes/types, ethertype, cut inside L4, random bytes), delivered in exact-capacity slices, either each in fresh memory or all in the same memory slot (as the zero-copy ring does). Oracle (independent decoder): no panic, <=1 record per frame, a record only if THIS frame has the complete header chain and every record field equals this frame's bytes. non-trivial: a frame decoding past the link layer followed later by one lacking the transport header; distinct by case",
+		Prop:  "C06",
+		Rule:  "sequences of 1..12 frames fed to ONE processor instance (tcp flags / tcp syn / icmp(udp) / arp; Ethernet and raw-IP mode): each frame is a well-formed frame of a drawn kind (own protocol half of the time; else tcp/udp/icmp/arp/ipv6/vlan/IP-in-IP 1..3 levels/other protocol, with IP+TCP options; or a consistently built datagram that ends inside/before its transport header or is a non-first fragment, plain or nested in IP-in-IP) with 0..3 structural mutations applied at a drawn level of the IP-in-IP chain (truncate anywhere, IHL, total length, protocol, data offset, fragment bits, version, trailing garbage, bit flips, ARP sizes/types, ethertype, cut inside L4, random bytes), delivered in exact-capacity slices, either each in fresh memory or all in the same memory slot (as the zero-copy ring does). Oracle (independent decoder): no panic, <=1 record per frame, a record only if THIS frame has the complete header chain and every record field equals this frame's bytes. non-trivial: a frame decoding past the link layer followed later by one lacking the transport header; distinct by case",
 		Gen:   c06Gen,
 		Check: c06Check,
 	})
